@@ -138,7 +138,7 @@ fn aliasing(ctx: &mut Ctx) {
 }
 
 pub fn run(ctx: &mut Ctx) {
-    let d = if ctx.quick() { 3 } else { 4 };
+    let d = if ctx.quick() { 4 } else { 5 };
     aliasing(ctx);
     chains(ctx, d);
 }
